@@ -437,6 +437,8 @@ func (self *PathNode) handleChild(in *[]PathNode, lp *int, cp *int, p *binary.Bi
 	}
 	v := &con[l]
 	l += 1
+	// a reused slot must not keep the children of a previous load (marshal writes a node from its children if it has any)
+	v.Next = v.Next[:0]
 
 	start := p.Read
 	buf := p.Buf
@@ -538,6 +540,8 @@ func (self *PathNode) handleUnknownChild(in *[]PathNode, lp *int, cp *int, p *bi
 	}
 	v := &con[l]
 	l += 1
+	// a reused slot must not keep the children of a previous load (marshal writes a node from its children if it has any)
+	v.Next = v.Next[:0]
 
 	start := p.Read - tagL
 
